@@ -23,6 +23,17 @@ func init() {
 }
 
 // wf is the deep well-formedness walk.  It returns "" when v is well-formed.
+// wfTolerateOpt: set by a caller that hands the library a hand-built value whose own type carries
+// optional-attribute annotations (NullVal / UnknownVal / empty collections of such a type can be
+// constructed): what comes back then carries them by the caller's doing, not the library's.
+var wfTolerateOpt bool
+
+func tolerateOptFor(v cty.Value) func() {
+	old := wfTolerateOpt
+	wfTolerateOpt = tsOf(v.Type()).HasOpt()
+	return func() { wfTolerateOpt = old }
+}
+
 func wf(v cty.Value) (why string) {
 	defer func() {
 		if r := recover(); r != nil {
@@ -59,11 +70,13 @@ func wf1(v cty.Value, path string) string {
 		v = inner
 	}
 	tm := tsOf(ty)
-	if tm.HasOpt() {
-		return fmt.Sprintf("%s: type %#v carries optional-attribute annotations", path, ty)
-	}
-	if !ty.Equals(ty.WithoutOptionalAttributesDeep()) {
-		return fmt.Sprintf("%s: type %#v differs from its stripped form", path, ty)
+	if !wfTolerateOpt {
+		if tm.HasOpt() {
+			return fmt.Sprintf("%s: type %#v carries optional-attribute annotations", path, ty)
+		}
+		if !ty.Equals(ty.WithoutOptionalAttributesDeep()) {
+			return fmt.Sprintf("%s: type %#v differs from its stripped form", path, ty)
+		}
 	}
 	if err := wfType(tm); err != "" {
 		return path + ": " + err
